@@ -12,6 +12,8 @@ import Driver.HPipe
 import Driver.HReader
 import Driver.HAgc3
 import Driver.HFasta
+import Driver.HCli
+import Driver.HFileIO
 /-!
 `ragc_model`: executes the Lean models behind a one-line-in / one-line-out protocol.
 Every handler returns `none` for a request it does not understand; the reply is then `bad-op`.
@@ -19,7 +21,7 @@ Every handler returns `none` for a request it does not understand; the reply is 
 namespace Driver
 
 def handlers : List (List String → Option String) :=
-  [handleKmer, handleTuple, handleSegment, handleQueue, handleContainer, handleRange, handleColl, handleLz, handleSplitters, handlePipe, handleReader, handleAgc3, handleFasta]
+  [handleKmer, handleTuple, handleSegment, handleQueue, handleContainer, handleRange, handleColl, handleLz, handleSplitters, handlePipe, handleReader, handleAgc3, handleFasta, handleCli, handleFileIO]
 
 def dispatch (line : String) : String :=
   let fields := line.trimAscii.toString.splitOn " "
